@@ -14,6 +14,7 @@ from harness import C04
 from harness.common import bt, dates, frame
 
 BOUNDS = {
+    'added': 'duplicate children (two names, node then name, two nodes); zero quote before trading under SelectHasData / SelectAll; custom price of the bid/offer-less trade symbolic in [-10,200]',
     'quick': '12 stacks of the C04 catalogue x {daily, intraday} x fee/bid-offer on/off, last date symbolic (prices in [0.5,1000], stats, weights, coupons, unit risks), '
              'fractional positions; 7 ill-formed classes; witness replays on source and compiled build',
     'thorough': 'adds whole-unit positions on concrete data and two symbolic dates',
